@@ -1,3 +1,262 @@
 import TTModel.Proto
-/-! C17 driver — stub (not built yet): answers `bad-op` to everything. -/
-def main : IO Unit := TT.Proto.mainLoop fun _ => "bad-op"
+import TTModel.C17_Codec
+import TTModel.C17_Resume
+import TTGen.C17_StateKeys
+/-!
+C17 driver.  Values cross the pipe as a prefix token stream (space separated):
+  N | T | F | I <int> | D <16 hex> | S <codepoints joined by '.' or '-'> |
+  L <n> v… | U <n> v… | M <n> (KI <int> | KS <str>) v … | X <dtype> <0|1> v | P <str> <dtype> <0|1> v
+JSON trees use the same tokens (arrays `L`, objects `M` with `KS` keys).
+Ops:
+  codec <dflt> <val>       -> `ok <val>` = decode (encode v), or `raise`
+  canon <dflt> <val>       -> same through `canon`
+  encode <val>             -> the JSON tree
+  decode <dflt> <json>     -> `ok <val>` | `raise`
+  intkeys <val>            -> dictionary with integer keys given back (top level)
+  attached <val> <int>     -> 1/0: a parameter with that index finds state in this dictionary
+  keys <class> <cond>*     -> `W k,… R k,…` keys written / read when exactly those conditions hold
+  classok <class>          -> 1/0
+  loop <name> <iters> <k>  -> saved counter and the labels the restarted run visits
+  tables                   -> names of generated classes and loops
+-/
+open TT.C17 TT.Proto
+
+def encStr (s : String) : String :=
+  if s.isEmpty then "-" else ".".intercalate (s.toList.map fun c => toString c.toNat)
+
+def decStr (w : String) : Option String :=
+  if w = "-" then some "" else
+  (w.splitOn ".").foldl (fun acc p => do
+    let a ← acc
+    let n ← p.toNat?
+    pure (a.push (Char.ofNat n))) (some "")
+
+def showDT : DType → String
+  | .float16 => "float16" | .float32 => "float32" | .float64 => "float64"
+  | .int32 => "int32" | .int64 => "int64" | .bool => "bool"
+
+def parseDT (s : String) : Option DType := DType.parse s
+
+def hex16 (n : Nat) : String := toHex16 n.toUInt64
+
+def valsLen : Vals → Nat
+  | .nil => 0
+  | .cons _ r => valsLen r + 1
+def kvsLen : KVs → Nat
+  | .nil => 0
+  | .cons _ _ r => kvsLen r + 1
+def jsonsLen : Jsons → Nat
+  | .nil => 0
+  | .cons _ r => jsonsLen r + 1
+def jkvsLen : JKVs → Nat
+  | .nil => 0
+  | .cons _ _ r => jkvsLen r + 1
+
+mutual
+partial def showVal : Val → List String
+  | .none => ["N"]
+  | .bool true => ["T"]
+  | .bool false => ["F"]
+  | .int n => ["I", toString n]
+  | .float x => ["D", hex16 x]
+  | .str s => ["S", encStr s]
+  | .list xs => ["L", toString (valsLen xs)] ++ showVals xs
+  | .tuple xs => ["U", toString (valsLen xs)] ++ showVals xs
+  | .dict kvs => ["M", toString (kvsLen kvs)] ++ showKVs kvs
+  | .tensor dt nn d => ["X", showDT dt, if nn then "1" else "0"] ++ showVal d
+  | .param id dt nn d => ["P", encStr id, showDT dt, if nn then "1" else "0"] ++ showVal d
+partial def showVals : Vals → List String
+  | .nil => []
+  | .cons v r => showVal v ++ showVals r
+partial def showKVs : KVs → List String
+  | .nil => []
+  | .cons (.int n) v r => ["KI", toString n] ++ showVal v ++ showKVs r
+  | .cons (.str s) v r => ["KS", encStr s] ++ showVal v ++ showKVs r
+end
+
+mutual
+partial def showJson : Json → List String
+  | .null => ["N"]
+  | .bool true => ["T"]
+  | .bool false => ["F"]
+  | .int n => ["I", toString n]
+  | .float x => ["D", hex16 x]
+  | .str s => ["S", encStr s]
+  | .arr xs => ["L", toString (jsonsLen xs)] ++ showJsons xs
+  | .obj kvs => ["M", toString (jkvsLen kvs)] ++ showJKVs kvs
+partial def showJsons : Jsons → List String
+  | .nil => []
+  | .cons v r => showJson v ++ showJsons r
+partial def showJKVs : JKVs → List String
+  | .nil => []
+  | .cons k v r => ["KS", encStr k] ++ showJson v ++ showJKVs r
+end
+
+def parseBit : String → Option Bool
+  | "1" => some true | "0" => some false | _ => none
+
+mutual
+partial def parseVal : List String → Option (Val × List String)
+  | "N" :: r => some (.none, r)
+  | "T" :: r => some (.bool true, r)
+  | "F" :: r => some (.bool false, r)
+  | "I" :: n :: r => n.toInt?.map fun n => (.int n, r)
+  | "D" :: h :: r => (parseHex h).map fun n => (.float n, r)
+  | "S" :: s :: r => (decStr s).map fun s => (.str s, r)
+  | "L" :: n :: r => do
+      let n ← n.toNat?
+      let (xs, r) ← parseVals n r
+      pure (.list xs, r)
+  | "U" :: n :: r => do
+      let n ← n.toNat?
+      let (xs, r) ← parseVals n r
+      pure (.tuple xs, r)
+  | "M" :: n :: r => do
+      let n ← n.toNat?
+      let (kvs, r) ← parseKVs n r
+      pure (.dict kvs, r)
+  | "X" :: dt :: nn :: r => do
+      let dt ← parseDT dt
+      let nn ← parseBit nn
+      let (d, r) ← parseVal r
+      pure (.tensor dt nn d, r)
+  | "P" :: id :: dt :: nn :: r => do
+      let id ← decStr id
+      let dt ← parseDT dt
+      let nn ← parseBit nn
+      let (d, r) ← parseVal r
+      pure (.param id dt nn d, r)
+  | _ => none
+partial def parseVals : Nat → List String → Option (Vals × List String)
+  | 0, r => some (.nil, r)
+  | n + 1, r => do
+      let (v, r) ← parseVal r
+      let (vs, r) ← parseVals n r
+      pure (.cons v vs, r)
+partial def parseKVs : Nat → List String → Option (KVs × List String)
+  | 0, r => some (.nil, r)
+  | n + 1, "KI" :: k :: r => do
+      let k ← k.toInt?
+      let (v, r) ← parseVal r
+      let (kvs, r) ← parseKVs n r
+      pure (.cons (.int k) v kvs, r)
+  | n + 1, "KS" :: k :: r => do
+      let k ← decStr k
+      let (v, r) ← parseVal r
+      let (kvs, r) ← parseKVs n r
+      pure (.cons (.str k) v kvs, r)
+  | _, _ => none
+end
+
+mutual
+partial def parseJson : List String → Option (Json × List String)
+  | "N" :: r => some (.null, r)
+  | "T" :: r => some (.bool true, r)
+  | "F" :: r => some (.bool false, r)
+  | "I" :: n :: r => n.toInt?.map fun n => (.int n, r)
+  | "D" :: h :: r => (parseHex h).map fun n => (.float n, r)
+  | "S" :: s :: r => (decStr s).map fun s => (.str s, r)
+  | "L" :: n :: r => do
+      let n ← n.toNat?
+      let (xs, r) ← parseJsons n r
+      pure (.arr xs, r)
+  | "M" :: n :: r => do
+      let n ← n.toNat?
+      let (kvs, r) ← parseJKVs n r
+      pure (.obj kvs, r)
+  | _ => none
+partial def parseJsons : Nat → List String → Option (Jsons × List String)
+  | 0, r => some (.nil, r)
+  | n + 1, r => do
+      let (v, r) ← parseJson r
+      let (vs, r) ← parseJsons n r
+      pure (.cons v vs, r)
+partial def parseJKVs : Nat → List String → Option (JKVs × List String)
+  | 0, r => some (.nil, r)
+  | n + 1, "KS" :: k :: r => do
+      let k ← decStr k
+      let (v, r) ← parseJson r
+      let (kvs, r) ← parseJKVs n r
+      pure (.cons k v kvs, r)
+  | _, _ => none
+end
+
+def fullVal (ws : List String) : Option Val :=
+  match parseVal ws with
+  | some (v, []) => some v
+  | _ => none
+
+def fullJson (ws : List String) : Option Json :=
+  match parseJson ws with
+  | some (v, []) => some v
+  | _ => none
+
+def showOpt : Option Val → String
+  | some v => "ok " ++ " ".intercalate (showVal v)
+  | none => "raise"
+
+def findClass (n : String) : Option ClassKeys :=
+  TTGen.C17_StateKeys.classes.find? fun c => c.name == n
+
+def findLoop (n : String) : Option LoopSpec :=
+  TTGen.C17_StateKeys.loops.find? fun l => l.name == n
+
+def handle (line : String) : String :=
+  match splitWords line with
+  | "codec" :: dflt :: ws =>
+    match parseDT dflt, fullVal ws with
+    | some d, some v => showOpt (decode d (encode v))
+    | _, _ => "bad-op"
+  | "canon" :: dflt :: ws =>
+    match parseDT dflt, fullVal ws with
+    | some d, some v => showOpt (canon d v)
+    | _, _ => "bad-op"
+  | "encode" :: ws =>
+    match fullVal ws with
+    | some v => " ".intercalate (showJson (encode v))
+    | none => "bad-op"
+  | "decode" :: dflt :: ws =>
+    match parseDT dflt, fullJson ws with
+    | some d, some j => showOpt (decode d j)
+    | _, _ => "bad-op"
+  | "intkeys" :: ws =>
+    match fullVal ws with
+    | some (.dict d) => " ".intercalate (showVal (.dict d.intKeys))
+    | _ => "bad-op"
+  | "attached" :: ws =>
+    match ws.reverse with
+    | i :: rest =>
+      match i.toInt?, fullVal rest.reverse with
+      | some i, some (.dict d) => if (attached d i).isSome then "1" else "0"
+      | _, _ => "bad-op"
+    | [] => "bad-op"
+  | "keys" :: cls :: conds =>
+    match findClass cls with
+    | some c =>
+      let en := fun (s : String) => s == "" || (s.splitOn "&").all fun p => conds.contains p
+      match c.delegateW with
+      | some a => s!"delegate {a}"
+      | none =>
+        let w := (c.written.filter fun e => en e.cond).map (·.key)
+        let r := (c.read.filter fun e => en e.cond).map (·.key)
+        s!"W {",".intercalate w} R {",".intercalate r}"
+    | none => "bad-op"
+  | ["classok", cls] =>
+    match findClass cls with
+    | some c => if c.ok then "1" else "0"
+    | none => "bad-op"
+  | ["loop", name, iters, k] =>
+    match findLoop name, iters.toNat?, k.toNat? with
+    | some l, some n, some k =>
+      let c := savedCounter l k
+      let labels := (resumedRun (fun _ (s : Nat) => s) n c 0).map (·.1)
+      s!"counter {c} labels {",".intercalate (labels.map toString)}"
+    | _, _, _ => "bad-op"
+  | ["tables"] =>
+    let cs := TTGen.C17_StateKeys.classes.map (·.name)
+    let ls := TTGen.C17_StateKeys.loops.map (·.name)
+    let na := TTGen.C17_StateKeys.notInstantiable.map (·.1)
+    s!"classes {",".intercalate cs} loops {",".intercalate ls} abstract {",".intercalate na} ok {TTGen.C17_StateKeys.translatorOk}"
+  | _ => "bad-op"
+
+def main : IO Unit := mainLoop handle
